@@ -174,6 +174,15 @@ class RequestHandlerBase(MethodView):
             # the number of events in a manifest is controlled by this value
             if ev_opts.count > RequestHandlerBase.MAX_EVENT_COUNT:
                 raise ValueError(f'{name} count {ev_opts.count} is too large')
+            if ev_opts.timescale < 1:
+                raise ValueError(
+                    f'{name} timescale must be greater than zero: {ev_opts.timescale}')
+            if ev_opts.duration < 0:
+                raise ValueError(
+                    f'{name} duration must not be negative: {ev_opts.duration}')
+            if ev_opts.version not in {0, 1}:
+                # the versions of the emsg box
+                raise ValueError(f'{name} version must be 0 or 1: {ev_opts.version}')
         for name in ['clockDrift', 'leeway', 'minimumUpdatePeriod',
                      'timeShiftBufferDepth']:
             value = getattr(options, name)
@@ -253,13 +262,15 @@ class RequestHandlerBase(MethodView):
 
     def increment_error_counter(self, usage: str, code: int) -> int:
         key = f'error-{usage}-{code:06d}'
-        value = flask.session.get(key, 0) + 1
+        # a session from before reset_error_counter() removed the key
+        # might contain None
+        value = (flask.session.get(key) or 0) + 1
         flask.session[key] = value
         return value
 
     def reset_error_counter(self, usage: str, code: int) -> None:
         key = f'error-{usage}-{code:06d}'
-        flask.session[key] = None
+        flask.session.pop(key, None)
 
 
 class HTMLHandlerBase(RequestHandlerBase):
